@@ -22,8 +22,21 @@ def closerCount (e : EP) (uid : Nat) : Nat :=
   | some h => h.closer
   | none => 0
 
+/-- a subscription nobody reads until the final observation (its signal number is 50 or more) -/
+def isIdle (e : EP) (uid : Nat) : Bool :=
+  match (e.slots.filterMap id ++ e.pending ++ e.done).find? (·.uid == uid) with
+  | some h => h.spec.residue ≥ 900050
+  | none => false
+
+def floodMsgs (a : Nat) : Nat → List Msg
+  | 0 => []
+  | n + 1 => floodMsgs a n ++ [eventMsg (50 + a) (2000 + 2 * (n + 1))]
+
 def finalStr (w : W) : String :=
-  let subs := w.subs.map (fun s => s!"sub=[{" ".intercalate (s.forwarded.map toString)}]:{if s.eventsClosed then "closed" else "open"}")
+  let readers := w.subs.filter (fun s => !isIdle w.ep s.uid)
+  let idlers := w.subs.filter (fun s => isIdle w.ep s.uid)
+  let subs := readers.map (fun s => s!"sub=[{" ".intercalate (s.forwarded.map toString)}]:{if s.eventsClosed then "closed" else "open"}")
+    ++ idlers.map (fun s => s!"idle:{if s.eventsClosed then "closed" else "open"}")
   let cbs := w.cbs.map (fun u => s!"cb={closerCount w.ep u}")
   let calls := w.calls.map phaseStr
   ";".intercalate (subs ++ cbs ++ calls)
@@ -63,6 +76,11 @@ def run (w : W) (args : List String) : W × String :=
     let w' := quiesce w
     (w', match w'.calls[c.toNat!]? with | some cl => phaseStr cl | none => "bad-op")
   | ["cl.sub", a] => (subscribe w a.toNat!, "ok")
+  | ["cl.subidle", a] => (subscribe w (50 + a.toNat!), "ok")
+  | ["cl.flood", a, n] =>
+    -- what does not fit into the queue is dropped (Endpoint.dispatch); nothing else is touched
+    if w.readDead || w.closed then (w, "dead")
+    else (quiesce ((floodMsgs a.toNat! n.toNat!).foldl deliver w), "dispatched")
   | ["cl.ondisc"] => (onDisconnect w, "ok")
   | ["cl.final"] => let w' := quiesce w; (w', finalStr w')
   | "cl.storm" :: _ => (w, "ok")   -- Props/C11: every call ends, on every schedule
